@@ -69,8 +69,8 @@ fn check_cfg(property: &str, thorough: bool) -> Option<orch::CheckCfg> {
         workers,
         hang_limit_s: if thorough { 60.0 } else { 20.0 },
         soft_deadline_s: if thorough { 1500.0 } else { 100.0 },
-        det_mod: if thorough { 41 } else { 13 },
-        det_chunks: if thorough { 64 } else { 32 },
+        det_mod: if thorough { 17 } else { 13 },
+        det_chunks: if thorough { 256 } else { 32 },
         max_shrink: 300,
         extra_assumptions: vec![],
         cross_env: property == "C07",
